@@ -50,7 +50,7 @@ def cases(tier, seed):
                 for k in ('lu', 'det', 'eigh', 'qr', 'branches', 'inplace', 'magnitudes', 'jacobian'):
                     out.append({'kind': 'structure', 'seed': case_seed('C11', seed, k, D, P, rep), 'params': {'what': k, 'D': D, 'P': P}})
     for prog in progs.cat():
-        if 'fancy' in prog.tags:
+        if {'fancy', 'augmented'} & prog.tags:
             continue
         for rep in range((1 if tier == 'quick' else 3) * (5 if 'zero-base' in prog.tags else 1)):          # exact zeros in some directions only: several draws
             out.append({'kind': 'program', 'seed': case_seed('C11', seed, prog.name, rep), 'params': {'prog': prog.name, 'P': 2 + rep % 2, 'D': [2, 1, 3][rep % 3]}})
